@@ -85,6 +85,110 @@ def run(ctx, anchors=None):
         ctx.site()
         ctx.inst(short in rows, "R07.1", "accepted=" + name, goc.loc(), "%s is accepted by name" % name,
                  "%s is an opcode (0x%02x) but GetOpCode has no row for it: `%s` is compiled as a string push" % (name, E[name], name))
+    # no exit before the table can trigger for a name the table contains: every `return` that is not a table row is
+    # evaluated (three-valued) for every row literal; it may only be able to fire for strings that are not table names
+    row_nodes = {id(v[1]) for v in rows.values()}
+    row_ifs = [v[1] for v in rows.values()]
+    gcfg = goc.cfg()
+    first_row = min(row_ifs, key=lambda n: (n.get("l", 0), n.get("c", 0))) if row_ifs else None
+    HEXD = set("0123456789abcdefABCDEF")
+
+    def ev3(e, name):
+        """True / False / None(unknown) for condition e with the C string `name`"""
+        if e is None:
+            return None
+        k = e.get("k")
+        if k == "cast":
+            return ev3(e["e"], name)
+        if k == "un" and e["op"] == "!":
+            v = ev3(e["e"], name)
+            return None if v is None else (not v)
+        if k == "bin" and e["op"] == "&&":
+            a, b = ev3(e["lhs"], name), ev3(e["rhs"], name)
+            if a is False or b is False:
+                return False
+            return True if (a and b) else None
+        if k == "bin" and e["op"] == "||":
+            a, b = ev3(e["lhs"], name), ev3(e["rhs"], name)
+            if a is True or b is True:
+                return True
+            return False if (a is False and b is False) else None
+        if k == "bin" and e["op"] in ("==", "!=", "<", ">", "<=", ">="):
+            a, b = val3(e["lhs"], name), val3(e["rhs"], name)
+            if a is None or b is None:
+                return None
+            return {"==": a == b, "!=": a != b, "<": a < b, ">": a > b, "<=": a <= b, ">=": a >= b}[e["op"]]
+        if k == "call" and e.get("n") == "IsHex":
+            sub = str3(e["args"][0], name)
+            if sub is None:
+                return None
+            return len(sub) > 0 and len(sub) % 2 == 0 and all(c in HEXD for c in sub)
+        if k in ("ref", "index", "opcall", "mcall", "call"):
+            v = val3(e, name)
+            return None if v is None else bool(v)
+        return None
+
+    def str3(e, name):
+        x = e
+        while x is not None and x.get("k") in ("cast", "ctor") and (x.get("e") is not None or len(x.get("args", [])) >= 1):
+            x = x["e"] if x.get("k") == "cast" else x["args"][0]
+        if x is None:
+            return None
+        if x.get("k") == "ref" and x["n"] == "name":
+            return name
+        if x.get("k") == "un" and x["op"] == "&" and x["e"].get("k") == "index" and astq.estr(x["e"]["base"]) == "name":
+            i = astq.const_value(x["e"]["idx"])
+            return name[i:] if i is not None and i <= len(name) else None
+        return None
+
+    def val3(e, name):
+        cv = astq.const_value(e)
+        if cv is not None:
+            return cv
+        x = e
+        while x is not None and x.get("k") == "cast":
+            x = x["e"]
+        if x is None:
+            return None
+        if x.get("k") == "index" and astq.estr(x["base"]) == "name":
+            i = astq.const_value(x["idx"])
+            if i is None:
+                return None
+            return ord(name[i]) if i < len(name) else 0
+        if x.get("k") == "call" and x.get("n") == "strlen":
+            sub = str3(x["args"][0], name)
+            return None if sub is None else len(sub)
+        if x.get("k") == "ref" and x["n"] == "name":
+            return 1   # non-null pointer
+        return None
+    early = []
+    for n in goc.nodes():
+        if n["k"] != "return":
+            continue
+        if any(id(a) in row_nodes for a in goc.ancestors(n)):
+            continue
+        if first_row is not None and gcfg.dominates(first_row["cond"], n):
+            continue     # after the table (the final "not an opcode" return)
+        conds = [(c, t) for (c, t) in S.ast_guards(goc, n)]
+        early.append((n, conds))
+    for (n, conds) in early:
+        ctx.site(len(rows))
+        hit = None
+        for L in sorted(rows):
+            for nm in (L,):
+                vals = []
+                for (c, t) in conds:
+                    v = ev3(c, nm)
+                    vals.append(None if v is None else (v if t else (not v)))
+                if all(v is not False for v in vals):
+                    hit = (L, [astq.estr(c) for (c, t) in conds])
+                    break
+            if hit:
+                break
+        key = "exit-before-table:%s" % (astq.estr(conds[-1][0])[:40] if conds else "unconditional")
+        ctx.inst(hit is None, "R07.1", key, goc.loc(n), "the exit guarded by %s cannot fire for any of the %d table names" % ([astq.estr(c) for (c, t) in conds], len(rows)),
+                 "GetOpCode can return at %s before consulting the name table for the table name \"%s\" (condition %s may hold): that opcode name is no longer recognised"
+                 % (goc.loc(n), hit[0] if hit else "", hit[1] if hit else ""))
     gon = fb.fn("GetOpName", file="script/script.cpp")
     sw = S.find_switches(gon)
     if not sw:
@@ -240,6 +344,7 @@ def run(ctx, anchors=None):
 
 
 MUTANTS = [
+    dict(name="hex-early-out", file="debugger/script.cpp", find="    // push value\n    #define c(v)", replace="    if (IsHex(name)) return OP_INVALIDOPCODE;\n    // push value\n    #define c(v)", expect=["R07.1:exit-before-table"]),
     dict(name="row-returns-neighbour", file="debugger/script.cpp", find="    c(SWAP);\n", replace="    if (!strcmp(\"SWAP\", name)) return OP_ROT;\n", expect=["R07.1:row=SWAP"]),
     dict(name="row-removed", file="debugger/script.cpp", find="    c(NOP3);\n", replace="", expect=["R07.1:accepted=OP_NOP3"]),
     dict(name="opname-wrong", file="script/script.cpp", find="return \"OP_TUCK\";", replace="return \"OP_ROT\";", expect=["R07.1:name-of=OP_TUCK"]),
